@@ -62,6 +62,20 @@ CLAIMS = {
              "error.execution, observed through the hook) and the continuation after the aborted block must equal Sem.tla. "
              "Run for rfsm-expression and ecmascript (strict option); raise/send/if-In also for the null datamodel.",
         note=CORE_NOTE + " An error in a <param> of <send> is not exercised (the Recommendation is ambiguous there)."),
+    "C09": dict(
+        category="model_checking", design_ref="4/C09",
+        technique="lock-step trace validation against Sem.tla (In() vectors, guard values, late/early binding) + TraceC09.tla (event fields, system variables)",
+        text="(a) Every onentry/onexit/transition/initial/history body of the shape, history and random documents marks the "
+             "vector In(s) for all states; the recorded vectors and every logged guard value must equal what Sem.tla computes "
+             "from the configuration at that moment (a state is active during its own onexit, from its own onentry on); null "
+             "datamodel In() guards are judged by the transition taken; a parent/child template checks In() after <invoke>. "
+             "(b) State-level data under early and late binding (with and without initial attribute) are read at every point and "
+             "must show the model's values (unassigned before first entry under late binding, not re-initialised on re-entry). "
+             "(c) TraceC09.tla: content reading the seven _event fields must see the fields of the event the tracer reports for "
+             "external, raised, #_internal-sent (params/content/sendid) and platform events; each attempt to modify _sessionid, "
+             "_name, _ioprocessors, _event and every _event field by <assign>, script '=', '?=' and <foreach> must raise "
+             "error.execution and leave the value intact (rfsm-expression and ecmascript with the strict option).",
+        note=CORE_NOTE + " ECMAScript without the strict option (silent non-writes) is not checked."),
     "C10": dict(
         category="model_checking", design_ref="4/C10",
         technique="Expr.tla (precedence, left-to-right grouping, value semantics) enumerated by TLC as generator + oracle; engine evaluated on every text",
@@ -72,6 +86,15 @@ CLAIMS = {
              "expression and the cached compilation, and for whitespace / redundant-parenthesis variants of the text. Cases the "
              "documentation leaves undefined are not judged. Member/index/assignment forms are not covered yet.",
         note="Trusted: Expr.tla as the reading of the documented semantics; the harness' value encoding; Doubles compared within 1e-12."),
+    "C11": dict(
+        category="model_checking", design_ref="4/C11",
+        technique="ExprFuzz.tla enumerates all token sequences up to L with TLC; outcomes of the real engine validated by TraceC11.tla",
+        text="All token sequences up to length L over a 45-token adversarial alphabet (L=2 quick / 3 thorough) and a 20-token "
+             "alphabet (L=3 / 4), structured long inputs (18 families, n up to 10^4 / 10^5) and seeded mutations are evaluated on a "
+             "populated store through parser, datamodel (compile + cache) and condition evaluation in a 2 MB-stack thread of a "
+             "sacrificial process under a watchdog, followed by a probe evaluation on the same store; TraceC11.tla accepts only "
+             "value/error outcomes with a usable store (rejects panic, hang, process death, locked/poisoned store).",
+        note="Bounded enumeration; arbitrary byte strings outside the generated families are not covered."),
     "C19": dict(
         category="model_checking", design_ref="4/C19",
         technique="trace validation of probe documents against Sem.NameMatch (token-prefix matching) under TLC",
